@@ -314,7 +314,7 @@ def run(run, tier, seed, replay=None):
         import family
         import scopecorr
         rnd = _random.Random(seed)
-        progs = [(c[2], c[3]) for c in count_cases() if c[0] == "lines"] + [family.program(rnd) for _ in range(60 if tier == "quick" else 600)]
+        progs = [(c[2], c[3]) for c in count_cases()] + [family.program(rnd) for _ in range(60 if tier == "quick" else 600)]
         progs += scopecorr.variants(progs[::5], rnd)
         sfound, sstats = scopecorr.check(run, b, progs)
         found |= sfound
